@@ -119,6 +119,42 @@ fn content_table(a: &Answer) -> Option<BTreeMap<String, String>> {
   }
 }
 
+/// The canonical attribution with every *unmapped* run removed (and equal
+/// neighbours merged again): where mapped runs start and what they point to.
+/// Two answers that differ only in where a mapped run is *closed* are equal
+/// under this view — that is exactly how ConcatSource's closing-segment
+/// finding (K3) shows; a shifted or re-attributed mapped run is not.
+fn mapped_only(k: &Key) -> Key {
+  fn strip(c: &Canon) -> Canon {
+    match c {
+      Canon::Full(lines) => Canon::Full(
+        lines
+          .iter()
+          .map(|runs| {
+            let mut out: Vec<(u32, Option<crate::model::Attr>)> = vec![];
+            for r in runs.iter().filter(|r| r.1.is_some()) {
+              if out.last().map_or(true, |l| l.1 != r.1) {
+                out.push(r.clone());
+              }
+            }
+            out
+          })
+          .collect(),
+      ),
+      other => other.clone(),
+    }
+  }
+  match k {
+    Key::Map(Some(c)) => Key::Map(Some(strip(c))),
+    Key::Stream { text, end, canon: Some(c) } => Key::Stream {
+      text: text.clone(),
+      end: *end,
+      canon: Some(strip(c)),
+    },
+    other => other.clone(),
+  }
+}
+
 fn canon_is_empty(c: &Canon) -> bool {
   match c {
     Canon::Full(l) => l.iter().all(|r| r.is_empty()),
@@ -541,7 +577,18 @@ pub fn check_strict(
   // delivering an unmapped first chunk — the recorded finding K3. So a
   // parent's positional differences stay in that class; its text, bytes and
   // sizes are judged.)
-  let fragile_obj = |o: usize| replace_over_cache[o] || (mode == StrictMode::C10 && replace_over_cache[0]);
+  // A *judged parent* (a simple ConcatSource of leaves and clones of the cache
+  // that has an uncached twin in the scenario) is excused only for
+  // differences in where mapped runs are closed (`mapped_only` view equal);
+  // `beyond_closing` is set by the callers when the difference survives that view.
+  let beyond_closing = std::cell::Cell::new(false);
+  let fragile_obj = |o: usize| {
+    let judged_parent = mode == StrictMode::C10 && o != 0 && !is_direct(&scn.objects[o]) && c10_reference(&scn.objects, o).is_some();
+    if judged_parent && beyond_closing.get() {
+      return false;
+    }
+    replace_over_cache[o] || (mode == StrictMode::C10 && replace_over_cache[0])
+  };
   let mut mismatch = |violations: &mut Vec<Violation>, counters: &mut Counters, class: &str, attribution_only: bool, detail: String| {
     // Positional differences of a composite above a cache; for C10 also the
     // *text* of a replayed stream over such a wrapped tree (the replay cuts
@@ -685,6 +732,7 @@ pub fn check_strict(
         let ka = key_of(a, &kind_for_key, &texts[op.obj].0, attribution, true);
         let ke = key_of(e, &kind_for_key, &texts[eobj].0, attribution, true);
         if ka != ke {
+          beyond_closing.set(mapped_only(&ka) != mapped_only(&ke));
           mismatch(
             &mut violations,
             &mut counters,
@@ -692,6 +740,7 @@ pub fn check_strict(
             true,
             format!("{} reports positions (end / attribution) differently from the same call on a cold value: got {} expected {}", who, a.brief(), e.brief()),
           );
+          beyond_closing.set(false);
         } else if attribution && mode == StrictMode::C10 {
           if let (Some(ta), Some(te)) = (content_table(a), content_table(e)) {
             // only files that both answers attribute to (a lines-only map
@@ -779,6 +828,10 @@ pub fn check_strict(
           && key_of(a, &TAIL_OPS[k], &texts[o].0, attribution, true)
             != key_of(&e, &TAIL_OPS[k], &texts[eobj].0, attribution, true)
         {
+          beyond_closing.set(
+            mapped_only(&key_of(a, &TAIL_OPS[k], &texts[o].0, attribution, true))
+              != mapped_only(&key_of(&e, &TAIL_OPS[k], &texts[eobj].0, attribution, true)),
+          );
           mismatch(
             &mut violations,
             &mut counters,
@@ -793,6 +846,7 @@ pub fn check_strict(
               key_of(&e, &TAIL_OPS[k], &texts[eobj].0, attribution, true)
             ),
           );
+          beyond_closing.set(false);
         }
       }
     }
